@@ -751,7 +751,18 @@ impl<'a> Session<'a> {
                 }
                 got.map(|i| format!("some {}", i)).unwrap_or("none".into())
             }
-            "vbyname" => sut.vbyname(toks[1].parse().unwrap(), toks[2]).map(|i| format!("some {}", i)).unwrap_or("none".into()),
+            "vbyname" => {
+                let v: usize = toks[1].parse().unwrap();
+                let got = sut.vbyname(v, toks[2]);
+                // a closed variant answers from its own list, whatever is pending for the next one
+                if let Some(list) = self.ora.all_variants.get(v) {
+                    let want = list.iter().cloned().find(|d| self.ora.names.get(d).map(|n| n == toks[2]).unwrap_or(false));
+                    if got != want {
+                        self.ora.hit("C12", format!("lookup of {} in closed variant {} gives {:?}, that variant holds {:?}", toks[2], v, got, want));
+                    }
+                }
+                got.map(|i| format!("some {}", i)).unwrap_or("none".into())
+            }
             "get" => sut.get(toks[1].parse().unwrap()).map(|i| format!("some {}", i)).unwrap_or("none".into()),
             "variant" => sut.variant(toks[1].parse().unwrap()).map(|l| format!("some [{}]", join(&l))).unwrap_or("none".into()),
             _ => "bad-op".into(),
@@ -1045,7 +1056,9 @@ fn random_history(rng: &mut Rng, out: &mut Out, stats: &mut Stats, hist: usize) 
     let chaotic = rng.chance(1, 6);
     let zst_heavy = rng.chance(1, 3);
     let fixed = if rng.chance(1, 2) { Some(*rng.pick(&NATIVE)) } else { None };
-    let nvar = 1 + rng.below(8);
+    // a few histories at scale: a first variant of 70..140 data, most of them removed in one step
+    let scale = hist % 1500 == 700;
+    let nvar = if scale { 2 + rng.below(3) } else { 1 + rng.below(8) };
     let by_ref = rng.chance(1, 3);
     let mut s = Session::new(out, stats, hist, if native { "native" } else { "generic" }, table, generic_strats, by_ref);
     let mut live: Vec<usize> = vec![];
@@ -1061,7 +1074,7 @@ fn random_history(rng: &mut Rng, out: &mut Out, stats: &mut Stats, hist: usize) 
         if s.dead { break; }
         // removals
         if !live.is_empty() {
-            let p = 1 + rng.below(4);
+            let p = if scale && _v == 1 { 5 } else { 1 + rng.below(4) };
             // removals are requested in any order (not only oldest first)
             let mut order = live.clone();
             if rng.chance(2, 3) {
@@ -1083,7 +1096,7 @@ fn random_history(rng: &mut Rng, out: &mut Out, stats: &mut Stats, hist: usize) 
             }
         }
         let big = rng.chance(1, 4);
-        let nadd = if rng.chance(1, 10) { 0 } else { rng.below(if big { 13 } else { 5 }) };
+        let nadd = if scale && _v == 0 { 70 + rng.below(70) } else if rng.chance(1, 10) { 0 } else { rng.below(if big { 13 } else { 5 }) };
         if native && rng.chance(1, 12) { s.unregistered(rng.below(4)); }
         for _ in 0..nadd {
             // invalid requests & lookups sprinkled in
@@ -1098,7 +1111,13 @@ fn random_history(rng: &mut Rng, out: &mut Out, stats: &mut Stats, hist: usize) 
                     } }
                     3 => { s.query("cur"); }
                     4 => { if let Some((_, n)) = names_live.get(rng.below(names_live.len().max(1))).cloned() { s.query(&format!("byname {}", n)); } }
-                    _ => { let v = rng.below(nvar + 1); let n = format!("f{}", rng.below(name_ctr + 1)); s.query(&format!("vbyname {} {}", v, n)); }
+                    _ => {
+                        let v = rng.below(nvar + 1);
+                        // half of the time a name that closed variant really holds (possibly one whose removal is pending)
+                        let held: Vec<String> = s.ora.all_variants.get(v).map(|l| l.iter().filter_map(|d| s.ora.names.get(d).cloned()).collect()).unwrap_or_default();
+                        let n = if !held.is_empty() && rng.chance(1, 2) { held[rng.below(held.len())].clone() } else { format!("f{}", rng.below(name_ctr + 1)) };
+                        s.query(&format!("vbyname {} {}", v, n));
+                    }
                 }
             }
             // names: mostly fresh, sometimes reuse the name of a removed datum (legal)
